@@ -319,7 +319,9 @@ class GcodeParser(CommonMixin):  # pylint: disable=too-many-instance-attributes
 
         if (self._checksum is not None):
             # Verify the checksum matches our computation
-            command = self.leadingWhitespace + self.text
+            # Leading whitespace is not part of the checksummed text (stringify() and Marlin both
+            # compute the checksum starting at the line number)
+            command = self.text
             computedChecksum = self.computeChecksum(command)
 
             if (self._checksum != computedChecksum):
